@@ -194,8 +194,21 @@ func (f *FakeForward) serve(idx int, c net.Conn, at UpstreamAttempt) {
 	wrongSent := false
 	for {
 		n, err := c.Read(tmp)
+		timeout := false
+		if ne, ok := err.(net.Error); ok && ne.Timeout() {
+			timeout, err = true, nil
+		}
 		if n > 0 {
 			buf = append(buf, tmp[:n]...)
+		}
+		if n == len(tmp) && len(buf) > 512*1024 && err == nil {
+			// a full read in the middle of a large message: more is on its way. Re-scanning the incomplete message after
+			// every read is quadratic; read on, with a short deadline in case the message happened to end exactly here.
+			_ = c.SetReadDeadline(time.Now().Add(20 * time.Millisecond))
+			continue
+		}
+		if n > 0 || timeout {
+			_ = c.SetReadDeadline(time.Time{})
 			for {
 				v, used, derr := MPDecode(buf)
 				if derr != nil {
